@@ -1480,6 +1480,23 @@ func main() {
 			}
 		}
 	}
+	// the function units are a function of the Go sources under src/ (and of this
+	// binary): when neither changed since the selected units were last written —
+	// and the files are still what was written — skip loading and type-checking
+	var man []manifestEntry
+	cache := newUnitCache(*repo, *out, all, want)
+	if cached, ok := cache.valid(); ok {
+		man = append(man, cached...)
+		if err := genTables(*repo, *out, all, want, &man); err != nil {
+			fmt.Fprintln(os.Stderr, "TRANSLATION-BREAK:", err)
+			os.Exit(3)
+		}
+		if *manifest != "" {
+			data, _ := json.MarshalIndent(man, "", " ")
+			os.WriteFile(*manifest, data, 0o644)
+		}
+		return
+	}
 	pkgSet := map[string]bool{}
 	for _, u := range units {
 		if !all && !want[u.File] {
@@ -1513,7 +1530,6 @@ func main() {
 	}
 	known := map[string]string{}
 	finfo := map[string]*fnInfo{}
-	var man []manifestEntry
 	for _, u := range units {
 		if !all && !want[u.File] {
 			continue
@@ -1578,6 +1594,7 @@ func main() {
 			fmt.Println("regenerated", u.File+".v")
 		}
 	}
+	cache.store(man)
 	if err := genTables(*repo, *out, all, want, &man); err != nil {
 		fmt.Fprintln(os.Stderr, "TRANSLATION-BREAK:", err)
 		os.Exit(3)
